@@ -116,6 +116,7 @@ pub struct GenOpts {
     pub double_cols: bool,
     pub defaults: bool,
     pub constraints: bool,
+    pub composite_keys: bool,
     pub max_rows_per_insert: usize,
 }
 
@@ -142,6 +143,7 @@ impl Default for GenOpts {
             double_cols: true,
             defaults: true,
             constraints: true,
+            composite_keys: false,
             max_rows_per_insert: 3,
         }
     }
@@ -181,7 +183,7 @@ fn gen_acol(o: &GenOpts) -> BoxedStrategy<ACol> {
 
 pub fn gen_create(o: &GenOpts) -> BoxedStrategy<AStmt> {
     let cons = if o.constraints { 0.6 } else { 0.0 };
-    (0u8..3, prop::collection::vec(gen_acol(o), 1..5), prop::option::weighted(cons, 0u8..2), prop::option::weighted(cons * 0.4, 0u8..4))
+    (0u8..3, prop::collection::vec(gen_acol(o), 1..5), prop::option::weighted(cons, 0u8..(if o.composite_keys { 4 } else { 2 })), prop::option::weighted(cons * 0.4, 0u8..4))
         .prop_map(|(name, cols, pk, uniq)| AStmt::Create { name, cols, pk, uniq })
         .boxed()
 }
@@ -313,7 +315,10 @@ fn resolve_pred(p: &APred, def: &TableDef) -> Pred {
             Pred::Cmp { col: c, op, val: v }
         }
         APred::IsNull { col } => Pred::IsNull { col: pick_idx(*col, def.cols.len()) },
-        APred::And(a, b) => Pred::And(Box::new(resolve_pred(a, def)), Box::new(resolve_pred(b, def))),
+        APred::And(a, b) => match (resolve_pred(a, def), resolve_pred(b, def)) {
+            (Pred::True, x) | (x, Pred::True) => x,
+            (x, y) => Pred::And(Box::new(x), Box::new(y)),
+        },
     }
 }
 
@@ -328,11 +333,28 @@ pub fn stmt_tags(s: &Stmt, view: &State) -> Vec<String> {
             if create_index_hits_duplicates(view, s) {
                 t.push("ddl.create_index_on_duplicates".into());
             }
+            if let Stmt::CreateUniqueIndex { table, cols, .. } = s {
+                if let Some(tb) = view.tables.get(table) {
+                    if tb.rows.values().any(|r| cols.iter().any(|c| r.get(*c).map(|v| v.is_null()).unwrap_or(false))) {
+                        t.push("unique.null_key".into());
+                    }
+                }
+            }
         }
         Stmt::Insert { table, cols, rows } => {
             t.push("insert".into());
             if rows.len() > 1 {
                 t.push("insert.multi_row".into());
+                let mut v = view.clone();
+                let mut k = u64::MAX / 2;
+                if matches!(exec_model(&mut v, &mut k, s).0, MOut::Err(..)) {
+                    // does the first row alone succeed? then the statement fails after a partial effect
+                    let first = Stmt::Insert { table: table.clone(), cols: cols.clone(), rows: vec![rows[0].clone()] };
+                    let mut v2 = view.clone();
+                    if !matches!(exec_model(&mut v2, &mut k, &first).0, MOut::Err(..)) {
+                        t.push("stmt.fails_midway".into());
+                    }
+                }
             }
             if let Some(tb) = view.tables.get(table) {
                 let null_key = rows.iter().any(|r| {
@@ -350,10 +372,29 @@ pub fn stmt_tags(s: &Stmt, view: &State) -> Vec<String> {
                 if null_key {
                     t.push("unique.null_key".into());
                 }
+                if let Some(cs) = cols {
+                    if tb.def.cols.iter().enumerate().any(|(i, c)| !cs.contains(&i) && c.default.is_some()) {
+                        t.push("insert.omitted_default".into());
+                    }
+                }
             }
         }
-        Stmt::Update { table, col, .. } => {
+        Stmt::Update { table, col, set, pred } => {
             t.push("update".into());
+            if matches!(set, SetExpr::Lit(Val::Null)) {
+                t.push("update.set_null".into());
+            }
+            if let Some(tb) = view.tables.get(table) {
+                if !tb.def.uniques.is_empty() {
+                    t.push("update.table_has_index".into());
+                }
+                let n = tb.rows.values().filter(|r| pred.eval(r) == Some(true)).count();
+                let mut v = view.clone();
+                let mut k = u64::MAX / 2;
+                if n > 1 && matches!(exec_model(&mut v, &mut k, s).0, MOut::Err(..)) {
+                    t.push("stmt.fails_midway".into());
+                }
+            }
             if let Some(tb) = view.tables.get(table) {
                 if tb.def.uniques.iter().any(|u| u.contains(col)) {
                     t.push("update.indexed_column".into());
@@ -395,7 +436,7 @@ pub fn resolve(a: &AStmt, view: &State) -> Stmt {
             if let Some(p) = pk {
                 let c = *p as usize % cols.len();
                 // composite key when the table has >= 3 columns and p is odd
-                let key = if cols.len() >= 3 && p % 2 == 1 { vec![c, (c + 1) % cols.len()] } else { vec![c] };
+                let key = if cols.len() >= 3 && *p >= 2 { vec![c, (c + 1) % cols.len()] } else { vec![c] };
                 uniques.push(key);
                 pkidx = Some(0);
             }
@@ -587,6 +628,10 @@ pub struct Interp {
     /// kind of the step that ran last: "commit_path" | "noncommit_end" | "failed_stmt" | "admin"
     pub last_step_kind: &'static str,
     verbose: bool,
+    /// unique keys written by a transaction/statement that did not commit: (table, unique idx, key)
+    pub poisoned_keys: BTreeSet<(String, usize, String)>,
+    /// committed rows whose DELETE was rolled back: (table, model row id)
+    pub poisoned_rows: BTreeSet<(String, u64)>,
 }
 
 pub fn err_is_unknown_object(text: &str) -> bool {
@@ -614,6 +659,8 @@ impl Interp {
             sequential: false,
             last_step_kind: "commit_path",
             verbose: std::env::var("VERIF_TRACE").is_ok(),
+            poisoned_keys: BTreeSet::new(),
+            poisoned_rows: BTreeSet::new(),
         })
     }
 
@@ -627,6 +674,127 @@ impl Interp {
     fn fail(&self, clause: &str, detail: String) -> Failure {
         let tail: Vec<String> = self.transcript.iter().rev().take(14).rev().cloned().collect();
         Failure::new(clause, format!("{detail}\n  transcript (last {}):\n    {}", tail.len(), tail.join("\n    "))).with_tags(self.tags.iter().cloned())
+    }
+
+    fn key_of(def: &TableDef, ui: usize, row: &[Val]) -> Option<String> {
+        let u = def.uniques.get(ui)?;
+        if u.iter().any(|c| row.get(*c).map(|v| v.is_null()).unwrap_or(true)) {
+            return None;
+        }
+        Some(u.iter().map(|c| row[*c].key()).collect::<Vec<_>>().join("\u{1}"))
+    }
+
+    /// Records what a transaction that did not commit leaves behind (see the findings these tags belong to).
+    fn poison_from_effects(&mut self, effects: &[Effect], view: &State) {
+        for e in effects {
+            match e {
+                Effect::Insert { table, row, .. } | Effect::Update { table, row, .. } => {
+                    if let Some(t) = view.tables.get(table).or_else(|| self.model.committed.tables.get(table)) {
+                        for ui in 0..t.def.uniques.len() {
+                            if let Some(k) = Self::key_of(&t.def, ui, row) {
+                                self.poisoned_keys.insert((table.clone(), ui, k));
+                            }
+                        }
+                    }
+                }
+                Effect::Delete { table, id } => {
+                    if self.model.committed.tables.get(table).map(|t| t.rows.contains_key(id)).unwrap_or(false) {
+                        self.poisoned_rows.insert((table.clone(), *id));
+                    }
+                }
+                _ => {}
+            }
+        }
+    }
+
+    /// A statement predicted to fail may have written some of its rows before failing.
+    fn poison_from_failed_stmt(&mut self, s: &Stmt, view: &State) {
+        if let Stmt::Insert { table, cols, rows } = s {
+            if let Some(t) = view.tables.get(table) {
+                for r in rows {
+                    let full: Vec<Val> = match cols {
+                        None => r.clone(),
+                        Some(cs) => {
+                            let mut f: Vec<Val> = t.def.cols.iter().map(|c| c.default.clone().unwrap_or(Val::Null)).collect();
+                            for (c, v) in cs.iter().zip(r) {
+                                if *c < f.len() {
+                                    f[*c] = v.clone();
+                                }
+                            }
+                            f
+                        }
+                    };
+                    if full.len() != t.def.cols.len() {
+                        continue;
+                    }
+                    for ui in 0..t.def.uniques.len() {
+                        if let Some(k) = Self::key_of(&t.def, ui, &full) {
+                            self.poisoned_keys.insert((table.clone(), ui, k));
+                        }
+                    }
+                }
+            }
+        }
+    }
+
+    /// Tags that depend on the history (poisoned keys / rows).
+    fn history_tags(&self, s: &Stmt, view: &State) -> Vec<String> {
+        let mut t = vec![];
+        match s {
+            Stmt::Insert { table, cols: None, rows } => {
+                if let Some(tb) = view.tables.get(table) {
+                    for r in rows {
+                        for ui in 0..tb.def.uniques.len() {
+                            if let Some(k) = Self::key_of(&tb.def, ui, r) {
+                                if self.poisoned_keys.contains(&(table.clone(), ui, k)) {
+                                    t.push("unique.key_reused_after_noncommit".to_string());
+                                }
+                            }
+                        }
+                    }
+                }
+            }
+            Stmt::Insert { table, cols: Some(cs), rows } => {
+                if let Some(tb) = view.tables.get(table) {
+                    for r in rows {
+                        let mut f: Vec<Val> = tb.def.cols.iter().map(|c| c.default.clone().unwrap_or(Val::Null)).collect();
+                        for (c, v) in cs.iter().zip(r) {
+                            if *c < f.len() {
+                                f[*c] = v.clone();
+                            }
+                        }
+                        for ui in 0..tb.def.uniques.len() {
+                            if let Some(k) = Self::key_of(&tb.def, ui, &f) {
+                                if self.poisoned_keys.contains(&(table.clone(), ui, k)) {
+                                    t.push("unique.key_reused_after_noncommit".to_string());
+                                }
+                            }
+                        }
+                    }
+                }
+            }
+            Stmt::Delete { table, pred } | Stmt::Update { table, pred, .. } => {
+                if let Some(tb) = view.tables.get(table) {
+                    if tb.rows.iter().any(|(id, r)| self.poisoned_rows.contains(&(table.clone(), *id)) && pred.eval(r) == Some(true)) {
+                        t.push("dml.on_row_with_rolled_back_delete".to_string());
+                    }
+                }
+            }
+            Stmt::CreateUniqueIndex { table, .. } => {
+                // an index built over a table that holds rows of aborted transactions
+                if self.poisoned_keys.iter().any(|(tb, _, _)| tb == table) {
+                    t.push("unique.key_reused_after_noncommit".to_string());
+                }
+            }
+            Stmt::DropTable { table } => {
+                // names are reused: forget poison of a dropped table
+                let _ = table;
+            }
+            _ => {}
+        }
+        t.sort();
+        t.dedup();
+        t
     }
 
     fn skip_if_excluded(&mut self, tags: &[String]) -> bool {
@@ -705,7 +873,8 @@ impl Interp {
                 if update_is_order_sensitive(&self.model.committed, &s) {
                     return None;
                 }
-                let tags = stmt_tags(&s, &self.model.committed);
+                let mut tags = stmt_tags(&s, &self.model.committed);
+                tags.extend(self.history_tags(&s, &self.model.committed));
                 if self.skip_if_excluded(&tags) {
                     return None;
                 }
@@ -718,13 +887,20 @@ impl Interp {
                 if matches!(m, MOut::Err(..)) {
                     self.tags.insert("failed_stmt".into());
                     self.last_step_kind = "failed_stmt";
-                    self.pending_noncommit_write = true;
+                    if !matches!(s, Stmt::Bad { .. } | Stmt::Select { .. } | Stmt::DropTable { .. }) {
+                        self.pending_noncommit_write = true;
+                    }
+                    self.poison_from_failed_stmt(&s, &before);
                     if before != self.model.committed {
                         unreachable!("model changed state on error");
                     }
                 }
                 if matches!(s, Stmt::Select { .. }) {
                     self.after_read();
+                }
+                if let (Stmt::DropTable { table }, MOut::Ddl) = (&s, &m) {
+                    self.poisoned_keys.retain(|(t, _, _)| t != table);
+                    self.poisoned_rows.retain(|(t, _)| t != table);
                 }
                 if self.check_outputs {
                     if let Some(f) = self.compare_out(&sql, &eng, &m, false) {
@@ -767,8 +943,9 @@ impl Interp {
                 }
                 let mut tags = stmt_tags(&stmt, &txn.view);
                 tags.push("txn.session".into());
+                tags.extend(self.history_tags(&stmt, &txn.view));
                 for t in tags.clone() {
-                    if t.starts_with("ddl.") {
+                    if t.starts_with("ddl.") || t == "stmt.fails_midway" {
                         tags.push(format!("{t}_in_txn"));
                     }
                 }
@@ -787,7 +964,10 @@ impl Interp {
                     self.tags.insert("failed_stmt".into());
                     self.tags.insert("txn.failed_stmt_in_session".into());
                     self.last_step_kind = "failed_stmt";
-                    self.pending_noncommit_write = true;
+                    if !matches!(stmt, Stmt::Bad { .. } | Stmt::Select { .. } | Stmt::DropTable { .. }) {
+                        self.pending_noncommit_write = true;
+                    }
+                    self.poison_from_failed_stmt(&stmt, &view_before);
                 }
                 self.txns.insert(*s, txn);
                 if self.check_outputs {
@@ -862,6 +1042,8 @@ impl Interp {
                 if txn.wrote {
                     self.pending_noncommit_write = true;
                 }
+                let (eff, view) = (txn.effects.clone(), txn.view.clone());
+                self.poison_from_effects(&eff, &view);
                 if is_drop {
                     self.db.drop_session(*s);
                 } else {
@@ -890,10 +1072,14 @@ impl Interp {
                 let mut sqls = vec![];
                 let mut outs = vec![];
                 let mut tags = vec!["batch".to_string()];
+                let mut failing: Option<(Stmt, State)> = None;
                 for a in stmts {
                     let s = resolve(a, &t.view);
                     if update_is_order_sensitive(&t.view, &s) {
                         return None;
+                    }
+                    for tg in self.history_tags(&s, &t.view) {
+                        tags.push(tg);
                     }
                     for tg in stmt_tags(&s, &t.view) {
                         if tg.starts_with("ddl.") {
@@ -902,11 +1088,13 @@ impl Interp {
                         tags.push(tg);
                     }
                     sqls.push(stmt_sql(&s, &t.view));
+                    let vb = t.view.clone();
                     let o = self.model.exec(&mut t, &s);
                     let failed = matches!(o, MOut::Err(..));
                     outs.push(o);
                     if failed {
                         tags.push("batch.failing_member".into());
+                        failing = Some((s.clone(), vb));
                         break;
                     }
                 }
@@ -959,6 +1147,11 @@ impl Interp {
                     (Err(_), true) => {
                         self.last_step_kind = "failed_stmt";
                         self.pending_noncommit_write = true;
+                        let (eff, view) = (t.effects.clone(), t.view.clone());
+                        self.poison_from_effects(&eff, &view);
+                        if let Some((fs, fv)) = &failing {
+                            self.poison_from_failed_stmt(fs, fv);
+                        }
                     }
                 }
                 if self.check_state_every_step {
